@@ -197,9 +197,8 @@ fn main() {
     }
 }
 
-/// the plain apply(rule, data) cases of a property's generator (for cross-entry-point runs)
-fn plain_cases(prop: &str, rng: &mut Rng, count: usize, thorough: bool) -> Vec<(Value, Value, String)> {
-    let cases = match prop {
+fn all_cases(prop: &str, rng: &mut Rng, count: usize, thorough: bool) -> Vec<Case> {
+    match prop {
         "C01" => gens::gen_c01(rng, count, thorough),
         "C02" => gens::gen_c02(rng, count, thorough),
         "C03" => gens::gen_c03(rng, count, thorough),
@@ -217,8 +216,12 @@ fn plain_cases(prop: &str, rng: &mut Rng, count: usize, thorough: bool) -> Vec<(
         "C15" => gens::gen_c15(rng, count, thorough),
         "C16" => gens::gen_c16(rng, count, thorough),
         _ => Vec::new(),
-    };
-    cases
+    }
+}
+
+/// the plain apply(rule, data) cases of a property's generator (for cross-entry-point runs)
+fn plain_cases(prop: &str, rng: &mut Rng, count: usize, thorough: bool) -> Vec<(Value, Value, String)> {
+    all_cases(prop, rng, count, thorough)
         .into_iter()
         .filter_map(|c| match c.work {
             Work::Apply { rule, data } => Some((rule, data, c.tag)),
@@ -393,6 +396,58 @@ fn gen_main(args: &[String]) {
                 });
             }
         }
+        "ES" => {
+            // the ECMAScript engine installed here (node) as the oracle for the conversion and
+            // comparison helpers: S and M are checked against what JavaScript itself computes
+            let picked: Vec<Case> = all_cases(&from, &mut rng, count * 4, thorough)
+                .into_iter()
+                .filter(|c| matches!(&c.work, Work::Helper { name, .. } if ES_HELPERS.contains(&name.as_str())))
+                .collect();
+            // a deterministic shuffle (the generators emit helpers in fixed cycles), then a prefix
+            let mut picked = picked;
+            for i in (1..picked.len()).rev() {
+                let j = rng.below(i + 1);
+                picked.swap(i, j);
+            }
+            picked.truncate(count);
+            if get_arg(args, "--stage", "cases") == "cases" {
+                let mut f = std::io::BufWriter::new(std::fs::File::create(format!("{}/es_cases.jsonl", out_dir)).unwrap());
+                for (i, c) in picked.iter().enumerate() {
+                    if let Work::Helper { name, args } = &c.work {
+                        let texts: Vec<String> = args.iter().map(|a| serde_json::to_string(a).unwrap()).collect();
+                        let nums: Vec<Vec<String>> = args.iter().map(|a| { let mut v = Vec::new(); spellings(a, name == "to_string", &mut v); v }).collect();
+                        writeln!(f, "{}", json!({"i": i, "fn": name, "args": texts, "nums": nums})).unwrap();
+                    }
+                }
+                println!("{{\"stage\":\"cases\",\"n\":{}}}", picked.len());
+                return;
+            }
+            let text = std::fs::read_to_string(format!("{}/es_results.jsonl", out_dir)).unwrap_or_default();
+            let mut results: BTreeMap<usize, Value> = BTreeMap::new();
+            for l in text.lines() {
+                if let Ok(v) = serde_json::from_str::<Value>(l) {
+                    results.insert(v["i"].as_u64().unwrap_or(u64::MAX) as usize, v);
+                }
+            }
+            for (i, c) in picked.iter().enumerate() {
+                let r = match results.get(&i) {
+                    Some(r) => r,
+                    None => continue,
+                };
+                if r["skip"].as_bool().unwrap_or(false) {
+                    continue;
+                }
+                let tag = format!("node:{}", c.tag);
+                let o = Obs::Helper { r: r["r"].clone() };
+                emitted.push(Emitted {
+                    work_term: work_term(&c.work),
+                    obs_term: obs_term(&o),
+                    tag: tag.clone(),
+                    record: json!({"tag": tag, "oracle": "node", "work": runner::work_to_json(&c.work), "obs": obs_json(&o)}),
+                    crashed: false,
+                });
+            }
+        }
         "C18" if !from.is_empty() => {
             // another property's cases, through the command line
             let mut picked = plain_cases(&from, &mut rng, count * 4, thorough);
@@ -468,6 +523,27 @@ fn gen_main(args: &[String]) {
     });
     std::fs::write(format!("{}/summary_{}.json", out_dir, prop), serde_json::to_string_pretty(&summary).unwrap()).unwrap();
     println!("{}", summary);
+}
+
+const ES_HELPERS: [&str; 12] = [
+    "abstract_eq", "abstract_ne", "strict_eq", "strict_ne", "abstract_lt", "abstract_gt", "abstract_lte", "abstract_gte",
+    "to_string", "to_number", "parse_float", "str_to_number",
+];
+
+/// JSON spellings of the numbers whose string form JavaScript would use: those inside arrays
+/// (pre-order, not descending into objects, which print as [object Object]) and, for
+/// to_string, a top-level number.  The oracle skips a case when String(n) differs from the
+/// JSON text (the property defines a number's string form as its JSON text).
+fn spellings(v: &Value, top: bool, out: &mut Vec<String>) {
+    match v {
+        Value::Number(_) if top => out.push(serde_json::to_string(v).unwrap()),
+        Value::Array(xs) => {
+            for x in xs {
+                spellings(x, true, out);
+            }
+        }
+        _ => {}
+    }
 }
 
 fn emit_pair(a: &Case, oa: &Obs, b: &Case, ob: &Obs) -> Emitted {
